@@ -19,6 +19,7 @@ package comdoc
 import (
 	"bytes"
 	"encoding/binary"
+	"errors"
 )
 
 // Read the master/meta sector allocation table. It is an array of all the
@@ -32,7 +33,12 @@ func (r *ComDoc) readMSAT() error {
 	nextSector := r.Header.MSATNextSector
 	count := r.SectorSize / 4
 	values := make([]SecID, count)
+	seen := make(map[SecID]bool)
 	for nextSector >= 0 {
+		if seen[nextSector] {
+			return errors.New("msat chain loops")
+		}
+		seen[nextSector] = true
 		if err := r.readSectorStruct(nextSector, values); err != nil {
 			return err
 		}
